@@ -386,6 +386,9 @@ type Network struct {
 	lastActor        *SimNode
 	lastActorChecked bool
 	puppets          map[int]*Puppet
+	// SubmitViaProxy: submissions go through InmemProxy.SubmitTx from a reused buffer
+	SubmitViaProxy bool
+	scratch        []byte
 	// SocketApp: nodes (by index) whose application sits behind the socket proxy
 	SocketApp map[int]bool
 	// AfterStepHook, if set, runs after every step before the monitors
@@ -736,7 +739,30 @@ func (nw *Network) Submit(a *SimNode, tx []byte) {
 		nw.SubmitOrder = append(nw.SubmitOrder, st)
 	}
 	nw.Rec.noteSubmission(a, cp)
-	a.Node.VerifAddTransaction(tx)
+	if nw.SubmitViaProxy && a.Proxy != nil {
+		// the application hands the transaction over through the real in-memory
+		// proxy from a scratch buffer that it overwrites as soon as SubmitTx has
+		// returned; the simulator thread plays the node's background loop
+		// (receive from the submit channel, add to the pool)
+		if cap(nw.scratch) < len(tx) {
+			nw.scratch = make([]byte, 0, 2*len(tx)+64)
+		}
+		buf := append(nw.scratch[:0], tx...)
+		done := make(chan struct{})
+		go func() {
+			a.Proxy.SubmitTx(buf)
+			close(done)
+		}()
+		t := <-a.Proxy.SubmitCh()
+		a.Node.VerifAddTransaction(t)
+		<-done
+		for i := range buf {
+			buf[i] = 0xEE
+		}
+		nw.Res.count("submissions_through_the_proxy_from_a_reused_buffer", 1)
+	} else {
+		a.Node.VerifAddTransaction(tx)
+	}
 	nw.Res.count("step_submit", 1)
 }
 
